@@ -173,6 +173,11 @@ def build_sources(tier, d, rnd, tag="C07"):
     srcs = [dict(r, schema=TU) for r in read_ndjson(os.path.join(d, "gsrc.ndjson"))]
     for i, s in enumerate(c16.HAND):
         srcs.append({"id": f"h{i}", "src": s, "schema": TU}); srcs.append({"id": f"hd{i}", "src": DECL + s, "schema": TU})
+    # statements the printer of the default options is known to change (F124: a backslash before a quote; the `$` names of F126 are left to C09:
+    # sqlparser's tokenizers disagree about them), so that rule `printed` of SqlScopeTrace is exercised on every run, next to statements it must leave alone
+    for i, s in enumerate(['from t | select {v = "a\\\\"}', 'from t | filter b != "it\\\\" | select {k}', 
+                           'from t | select {v = "a b\\\\c", w = "x--y", `sel ect` = a, z = \'q"r\'}']):
+        srcs.append({"id": f"pr{i}", "src": s, "schema": TU})
     # (b) the repository's queries over the chinook schema, book snippets (unknown schemas)
     ch = chinook_schema()
     for n, s in corpus.repo_queries():
